@@ -156,7 +156,7 @@ func OlvmGenesis() GenesisSpec {
 	gs := DefaultGenesis()
 	gs.Fork = 1
 	gs.Validators = []GenValidator{{"v1", 600000}, {"v2", 500000}}
-	gs.EthAccounts = []string{"e1", "e2", "e3"}
+	gs.EthAccounts = []string{"e1", "e2", "e3", "e4"} // e4 is spent down to exactly zero by the workloads
 	return gs
 }
 
